@@ -273,6 +273,69 @@ fn random_string(rng: &mut Rng, profile: u64) -> String {
     s
 }
 
+// ---- long lines: inputs whose lines have 1000..5000 characters, positions and spans at large columns
+/// the characters of one long line of `n` chars.  profile 0 ASCII (varying letters), 1 ASCII + 2-byte, 2 ASCII + 4-byte + 2-byte,
+/// 3 ASCII with TABs
+fn long_line(rng: &mut Rng, n: usize, profile: u64) -> Vec<char> {
+    (0..n).map(|i| {
+        let plain = (b'a' + (i % 26) as u8) as char;
+        match profile {
+            1 => if rng.chance(1, 3) { 'é' } else { plain },
+            2 => match rng.below(6) { 0 => '😀', 1 => 'é', _ => plain },
+            3 => if rng.chance(1, 40) { '\t' } else { plain },
+            _ => plain,
+        }
+    }).collect()
+}
+/// (weight, case, observation thunk data): candidate cases of one string with a long line
+fn long_cases(rng: &mut Rng, n: usize, profile: u64, shape: u64) -> (String, Vec<(char, usize, usize)>) {
+    let line = long_line(rng, n, profile);
+    let prefix = match shape % 3 { 0 => "", 1 => "ab\n", _ => "x\r\nyz\n" };
+    let n2 = if shape / 3 % 4 == 3 { n / 2 + 7 } else { 2 };
+    let line2 = long_line(rng, n2, profile);
+    let mut s = String::from(prefix);
+    let start = s.len();
+    s.extend(line.iter());
+    let eol = s.len();
+    // what follows the long line: nothing, LF, LF + a short line, CRLF + a short line + LF, LF + a second long line
+    let mut start2 = None;
+    match shape / 3 % 5 { 0 => {}, 1 => s.push('\n'), 2 => { s.push('\n'); start2 = Some(s.len()); s.extend(line2.iter()); }
+                          3 => { s.push_str("\r\n"); start2 = Some(s.len()); s.extend(line2.iter()); s.push('\n'); }
+                          _ => { s.push('\n'); start2 = Some(s.len()); s.extend(line2.iter()); } }
+    // byte offset of column c (1-based) of a line starting at byte `st`
+    let off = |st: usize, l: &[char], c: usize| st + l[..(c - 1).min(l.len())].iter().map(|x| x.len_utf8()).sum::<usize>();
+    let mut cols: Vec<usize> = vec![1, 2, 1023, 1024, 1025, 1026, 1500, 2047, 2048, 2049, 4095, 4096, 4097, n - 1, n, n + 1];
+    cols.retain(|&c| c >= 1 && c <= n + 1);
+    cols.sort(); cols.dedup();
+    let mut cases: Vec<(char, usize, usize)> = Vec::new();
+    for &c in &cols {
+        let a = off(start, &line, c);
+        cases.push(('P', a, a));
+        // one span starting in this column: empty, one char, three chars, to the end of the line, into the next line, or
+        // (the long line as the LAST line of the span) from the start of the input to this column
+        let mut kinds: Vec<u64> = vec![0, 1, 2, 3];
+        if start2.is_some() { kinds.push(4); }
+        if start > 0 { kinds.push(5); }
+        match *rng.pick(&kinds) {
+            0 => cases.push(('Q', a, a)),
+            1 => cases.push(('Q', a, off(start, &line, c + 1))),
+            2 => cases.push(('Q', a, off(start, &line, c + 3))),
+            3 => cases.push(('Q', a, eol)),
+            4 => { let st2 = start2.unwrap(); cases.push(('Q', a, off(st2, &line2, 1 + rng.below(line2.len() as u64 + 1) as usize))); }
+            _ => cases.push(('Q', 0, a)),
+        }
+    }
+    // positions and spans on the second line when it is long too
+    if let Some(st2) = start2 { if line2.len() > 100 {
+        for &c in &[line2.len() / 2, line2.len(), line2.len() + 1] {
+            let a = off(st2, &line2, c);
+            cases.push(('P', a, a));
+            cases.push(('Q', a, off(st2, &line2, line2.len() + 1)));
+        }
+    } }
+    (s, cases)
+}
+
 fn main() {
     quiet_panics();
     let mode = arg(1);
@@ -298,6 +361,44 @@ fn main() {
                 let s = random_string(&mut rng, i % 4);
                 let mut r2 = rng.clone(); rng.next();
                 all_cases(&mut out, &s, &mut r2, Some(k), s.len() <= 16, false);
+            }
+        }
+        // long lines (1000..5000 chars; ASCII, multi-byte, TABs; alone, after short lines, followed by short / long lines):
+        // positions and spans at columns 1, 2, 1023..1026, 1500, 2047..2049, 4095..4097 and at the end of the line.
+        // `budget` bounds the work of the (quadratic) extracted model: a case on a text of c chars costs (c/1000)^2; every
+        // text (none longer than `maxlen`) gets the same share and at least 2 cases, chosen at random among its candidates.
+        "long" => {
+            let seed = arg_u64(2, 1); let k = arg_u64(3, 0); let m = arg_u64(4, 1).max(1); let budget = arg_u64(5, 100) as f64;
+            let maxlen = arg_u64(6, 5000) as usize;
+            let mut rng = Rng::new(seed ^ 0x10c0);
+            // up to 2100 chars: all four profiles; 3000: two of them; 4200 and 5000: one each (which ones depends on the seed)
+            let mut texts: Vec<(usize, u64)> = Vec::new();
+            for &n in &[1030usize, 1200, 1600, 2100] { for p in 0..4u64 { texts.push((n, p)); } }
+            texts.push((3000, seed % 4)); texts.push((3000, (seed + 2) % 4));
+            texts.push((4200, (seed + 1) % 4)); texts.push((5000, (seed + 3) % 4));
+            texts.retain(|t| t.0 <= maxlen);
+            let share = budget / texts.len() as f64;
+            // (cost, kind, a, b, text): all selected cases, the dearest first, dealt to the shards in turn
+            let mut strs: Vec<String> = Vec::new();
+            let mut sel: Vec<(f64, char, usize, usize, usize)> = Vec::new();
+            for &(n, p) in &texts {
+                let n = n + rng.below(40) as usize;
+                let shape = rng.below(15);
+                let (s, mut cands) = long_cases(&mut rng, n, p, shape);
+                let cost = { let c = s.chars().count() as f64 / 1000.0; c * c * (s.len() as f64 / s.chars().count() as f64) };
+                let take = ((share / cost) as usize).max(2).min(cands.len());
+                for _ in 0..take {
+                    let (kind, a, b) = cands.swap_remove(rng.below(cands.len() as u64) as usize);
+                    sel.push((cost, kind, a, b, strs.len()));
+                }
+                strs.push(s);
+            }
+            sel.sort_by(|x, y| y.0.partial_cmp(&x.0).unwrap().then(x.4.cmp(&y.4)).then((x.1, x.2, x.3).cmp(&(y.1, y.2, y.3))));
+            for (i, &(_, kind, a, b, si)) in sel.iter().enumerate() {
+                if i as u64 % m != k { continue; }
+                let s = &strs[si]; let e = esc(s);
+                if kind == 'P' { out.emit(format!("P:{}:{}", a, e), obs_p(s, a), true); }
+                else { out.emit(format!("Q:{}:{}:{}", a, b, e), obs_q(s, a, b), true); }
             }
         }
         // which state is the tree in?  K2 witness: "\nab\ncd" span 0..2 renders the continued line raw
